@@ -318,3 +318,90 @@ func runC06Enum(rc *RunCtx) *simkit.Violation {
 	}
 	return nil
 }
+
+func init() {
+	Register(&Scenario{Prop: "C06", Name: "crash-diamond-commit", Strict: true, Quick: 3, Thorough: 4, Run: runC06Commit})
+}
+
+// runC06Commit: a diamond commit is killed at a chosen store write; the bundle it was producing is visible
+// only if its descriptor landed, and then it is complete.
+func runC06Commit(rc *RunCtx) *simkit.Violation {
+	const prop = "C06"
+	w := rc.W
+	t := w.W
+	d := newDM(rc)
+	w.OnEvent(immutableBundles(prop, d.Meta))
+	setup := w.Client("setup")
+	r, v := drawHistory(prop, d, t, setup, "r1", 2<<20, 2)
+	if v != nil {
+		return v
+	}
+	ct, v := doOp(prop, w, setup, "diamond-init", createDiamondFn(d.Stores(setup), "r1"))
+	if v != nil {
+		return v
+	}
+	did := ct.Result.(string)
+	ns := t.Range(1, 3)
+	merged := Tree{}
+	for i := 0; i < ns; i++ {
+		c := w.Client(fmt.Sprintf("split%d", i))
+		tr := Tree{fmt.Sprintf("only-%d", i): []byte(fmt.Sprintf("only %d", i)), "shared": []byte("same everywhere")}
+		src := memDisk()
+		_ = writeTree(src, tr)
+		tk, v := doOp(prop, w, c, "split-add", splitAddFn(d.Stores(c), "r1", did, "", src, 2, 0, nil))
+		if v != nil {
+			return v
+		}
+		if tk.Err != nil {
+			return Viol(prop, "harness", "split add", "", "%v", tk.Err)
+		}
+		for p, b := range tr {
+			merged[p] = b
+		}
+	}
+	victim := w.Client("victim")
+	var dia *core.Diamond
+	cp := t.Range(0, 3)
+	kind := simkit.Kind(int(simkit.FCrashB) + t.Choose(2))
+	w.Faults = &simkit.FaultCfg{Plan: []*simkit.Planned{{Client: "victim", Nth: cp, Kind: kind}}}
+	w.Note("history %d bundles; diamond with %d splits; commit crashes %s its write #%d", len(r.Bundles), ns, kind, cp)
+	vt := w.Go(victim, "commit", commitFn(d.Stores(victim), "r1", did, model.IgnoreConflicts, 0, &dia))
+	if v := w.Run(); v != nil {
+		v.Property = prop
+		return v
+	}
+	w.Faults = nil
+	extra := map[string]*mBundle{}
+	landed := false
+	if dia != nil && dia.BundleID != "" {
+		extra[dia.BundleID] = &mBundle{ID: dia.BundleID, Tree: merged, Leaf: 2 << 20}
+		landed = d.Meta.Peek(model.GetArchivePathToBundle("r1", dia.BundleID)) != nil
+	}
+	if !victim.Dead {
+		if vt.Err != nil {
+			return Viol(prop, "commit-failed", "Commit", did, "fault-free commit failed: %v", vt.Err)
+		}
+		r.Bundles = append(r.Bundles, extra[dia.BundleID])
+		extra = nil
+	} else {
+		w.Probe("nontrivial")
+		w.Probe("crash-fired")
+	}
+	if v := observe(prop, d, w.Client("observer"), r, extra, t, true); v != nil {
+		return v
+	}
+	if !victim.Dead || landed {
+		return nil // retrying a commit whose bundle descriptor landed is the recorded finding of C12
+	}
+	re := w.Client("retry")
+	var dia2 *core.Diamond
+	rt, v := doOp(prop, w, re, "commit-retry", commitFn(d.Stores(re), "r1", did, model.IgnoreConflicts, 0, &dia2))
+	if v != nil {
+		return v
+	}
+	if rt.Err != nil {
+		return Viol(prop, "retry-failed", "Commit", did, "the commit retried after a crash (no bundle descriptor had landed) failed: %v", rt.Err)
+	}
+	r.Bundles = append(r.Bundles, &mBundle{ID: dia2.BundleID, Tree: merged, Leaf: 2 << 20})
+	return observe(prop, d, w.Client("observer2"), r, nil, t, true)
+}
